@@ -44,8 +44,8 @@ PROPS = {
         "modelled": CORE_MODELLED,
     },
     "C06": {
-        "quick": [("cycle", 42, 60), ("limits", 30, 80)],
-        "thorough": [("cycle", 560, 1500), ("limits", 300, 200)],
+        "quick": [("cycle", 42, 60), ("limits", 30, 80), ("fork", 60, 80)],
+        "thorough": [("cycle", 560, 1500), ("limits", 300, 200), ("fork", 1500, 160)],
         "rule": "create-put-read cycles over a rotating id set with k = 0..13 long-lived groups, four orders of put/bind/add per cycle; non-trivial = at least 15 collections in one history (the 14 slots have wrapped around)",
         "nontrivial": "cycles",
         "modelled": CORE_MODELLED,
